@@ -9,13 +9,30 @@
   hypotheses over every history of well-formed requests interleaved with padding / noise / damaged requests, receive
   steps, stream steps and reads, and shows the machine equal to the reference device (`refRun`) over the whole
   history; `stream_alive_run` / `stream_step_in_history` do the same for the stream thread under `FitsAlong`.
+  Junk THROUGH THE INTERFACE: every real write is `Pad.dataAlign wpad` of the bytes handed to `write` (a client sets
+  wpad = rxpadding, default 16), so what is queued for a damaged request is `damaged ++ zeros`.  `ignores_corrupted` /
+  `ignores_noise` speak about an item that IS the damaged frame / the noise; `ignores_corrupted_padded` (any trailing
+  bytes), `ignores_noise_padded`, `ignores_*_written` (through `write` with any write padding) conclude the same for what
+  is really queued, and `JunkClass` / `history_conforms_classes` / `alive_run_classes` / `request_after_history_classes`
+  restate the history theorems with the junk given by its CLASS (padding, noise without a start byte, a request damaged
+  within C02's detection classes with start and length bytes intact) instead of by the hypothesis "the receiver ignores
+  the padded bytes".
   Outside the quantifier (accepted): a CRC-valid frame that is not a request (ACK / STREAM id, common-info request
   with a payload) ends the receive thread (`Thr.dead` in the model); only the first frame of one write is handled.
+  SCHEDULES are outside the quantifier: iterations of the two device threads are atomic in the model.
+  `stream_only_when_started` says that an iteration which BEGINS while the stream is not started produces nothing; with
+  real threads `_thread_stream` tests the start event and only then takes the device lock, while `_start_cb` clears the
+  event outside that lock and queues the ACK under it — a stream thread descheduled between its test and the lock
+  samples and queues a whole batch AFTER the client has read the ACK of its stop request (review finding G2; a legal OS
+  schedule, reproduced by the reviewer on the unmodified DummyDev).  Not a statement of this file.
+  Names are byte lists here (`DevOk`: at most 65 524 bytes); a Python `str` name that cannot be encoded as UTF-8 (a lone
+  surrogate) makes the channel-info encoder raise inside the receive thread (review finding M2): not expressible.
 -/
 import NxsModel.Lemmas.Dummy
 import NxsModel.Lemmas.DummyBatch
 import NxsModel.Props.C02
 import NxsModel.Props.C17
+import NxsModel.Lemmas.DummyPad
 namespace Nxs.C14
 open Nxs Nxs.Spec Nxs.Dummy
 
@@ -924,5 +941,190 @@ example :
     ((dataGet [sp, de] 7).2.filter fun s => s.chan = 0).map (·.data) = [[.int 0], [.int 3], [.int 6]] ∧
     ((dataGet [sp, de] 7).2.filter fun s => s.chan = 1).map (·.data) = [[.int 0], [.int 1], [.int 2], [.int 3], [.int 4], [.int 5], [.int 6]] ∧
     (dataGet [sp, de] 7).1.map (·.calls) = [7, 7] := by decide +kernel
+
+/-! ### junk written through a padded interface
+
+  `ignores_noise` / `ignores_corrupted` speak about a queued item that IS the noise / the damaged frame, but every write
+  goes through `Pad.dataAlign i.wpad` (zeros appended up to a multiple of the write padding).  This section concludes
+  the same for what is really queued: the damaged frame / the noise followed by padding, for every write padding
+  (helper lemmas: Lemmas/DummyPad.lean). -/
+
+/-- a CRC-damaged request followed by ANY trailing bytes `z` (so: by any padding) is ignored: the length field is
+    intact, the dispatcher judges exactly the damaged frame (hypotheses of `ignores_corrupted`) -/
+theorem ignores_corrupted_padded (cs : List Chan) (i : Inst) (w e : Bytes) (fid : Nat) (pl z : Bytes) (rest : List Bytes)
+    (hw : Serial.frameDecode w = .ok ⟨fid, pl⟩) (hexact : w.length = flen w) (hlen : w.length ≤ 4095)
+    (hl : e.length = w.length) (h1 : e.getD 1 0 = 0) (h2 : e.getD 2 0 = 0)
+    (hclass : weight e = 1 ∨ weight e = 2 ∨ weight e % 2 = 1 ∨ (weight e ≠ 0 ∧ lastSet e - firstSet e < 16))
+    (hsof : Serial.hdrFind (xorBytes w e) = some 0)
+    (halive : i.recvThr = .alive) (hq : i.qwrite = (xorBytes w e ++ z) :: rest) :
+    recvStep cs i = (cs, { i with qwrite := rest }, none) :=
+  ignores_junk cs i _ rest (Pad.recvHandle_corrupted_append w e fid pl hw hexact hlen hl h1 h2 hclass hsof z) halive hq
+
+/-- noise without a start byte followed by any number of padding zeros is ignored -/
+theorem ignores_noise_padded (cs : List Chan) (i : Inst) (d : Bytes) (k : Nat) (rest : List Bytes)
+    (hn : Serial.hdrFind d = none) (halive : i.recvThr = .alive) (hq : i.qwrite = (d ++ List.replicate k 0) :: rest) :
+    recvStep cs i = (cs, { i with qwrite := rest }, none) :=
+  ignores_junk cs i _ rest (Pad.recvHandle_noise_append_zeros d k hn) halive hq
+
+/-- a write the receiver ignores AFTER the interface's padding, then a receive step: nothing happened -/
+theorem ignores_junk_written (cs : List Chan) (i : Inst) (d : Bytes)
+    (hd : Dispatch.recvHandle (Pad.dataAlign i.wpad d) = .ignored) (halive : i.recvThr = .alive) (hq : i.qwrite = []) :
+    run cs i [.write d, .recvStep] = (cs, i, [.none, .none]) := by
+  have h := ignores_junk_history cs i [d] (fun x hx => by rw [List.mem_singleton.mp hx]; exact hd) halive hq
+  simpa using h
+
+/-- **a CRC-damaged request written through the interface** — whatever its write padding `i.wpad` — and taken by the
+    receive thread changes nothing: channel objects, instance (stream flag, both queues, both threads) as before, nothing
+    to observe -/
+theorem ignores_corrupted_written (cs : List Chan) (i : Inst) (w e : Bytes) (fid : Nat) (pl : Bytes)
+    (hw : Serial.frameDecode w = .ok ⟨fid, pl⟩) (hexact : w.length = flen w) (hlen : w.length ≤ 4095)
+    (hl : e.length = w.length) (h1 : e.getD 1 0 = 0) (h2 : e.getD 2 0 = 0)
+    (hclass : weight e = 1 ∨ weight e = 2 ∨ weight e % 2 = 1 ∨ (weight e ≠ 0 ∧ lastSet e - firstSet e < 16))
+    (hsof : Serial.hdrFind (xorBytes w e) = some 0)
+    (halive : i.recvThr = .alive) (hq : i.qwrite = []) :
+    run cs i [.write (xorBytes w e), .recvStep] = (cs, i, [.none, .none]) :=
+  ignores_junk_written cs i _ (Pad.recvHandle_corrupted_dataAlign i.wpad w e fid pl hw hexact hlen hl h1 h2 hclass hsof)
+    halive hq
+
+/-- the same for noise without a start byte -/
+theorem ignores_noise_written (cs : List Chan) (i : Inst) (d : Bytes) (hn : Serial.hdrFind d = none)
+    (halive : i.recvThr = .alive) (hq : i.qwrite = []) :
+    run cs i [.write d, .recvStep] = (cs, i, [.none, .none]) :=
+  ignores_junk_written cs i d (Pad.recvHandle_noise_dataAlign i.wpad d hn) halive hq
+
+/-- … and for a padding-only write -/
+theorem ignores_padding_written (cs : List Chan) (i : Inst) (k : Nat) (halive : i.recvThr = .alive) (hq : i.qwrite = []) :
+    run cs i [.write (List.replicate k 0), .recvStep] = (cs, i, [.none, .none]) :=
+  ignores_junk_written cs i _ (Pad.recvHandle_zeros_dataAlign i.wpad k) halive hq
+
+/-- the three classes of junk of the property text, as a predicate on the bytes HANDED TO `write` (before the interface
+    pads them): padding only, noise without a start byte, a valid request (exactly as long as it declares, ≤ 4095 bytes)
+    damaged by one or two bit flips, an odd number of flips or a burst of up to 16 bits, with the start byte and the
+    length bytes intact -/
+inductive JunkClass : Bytes → Prop
+  | padding (k : Nat) : JunkClass (List.replicate k 0)
+  | noise (d : Bytes) (h : Serial.hdrFind d = none) : JunkClass d
+  | corrupted (w e : Bytes) (fid : Nat) (pl : Bytes)
+      (hw : Serial.frameDecode w = .ok ⟨fid, pl⟩) (hexact : w.length = flen w) (hlen : w.length ≤ 4095)
+      (hl : e.length = w.length) (h1 : e.getD 1 0 = 0) (h2 : e.getD 2 0 = 0)
+      (hclass : weight e = 1 ∨ weight e = 2 ∨ weight e % 2 = 1 ∨ (weight e ≠ 0 ∧ lastSet e - firstSet e < 16))
+      (hsof : Serial.hdrFind (xorBytes w e) = some 0) : JunkClass (xorBytes w e)
+
+/-- junk of the three classes is ignored by the receiver after ANY write padding -/
+theorem JunkClass.ignored {d : Bytes} (h : JunkClass d) (wpad : Nat) :
+    Dispatch.recvHandle (Pad.dataAlign wpad d) = .ignored := by
+  cases h with
+  | padding k => exact Pad.recvHandle_zeros_dataAlign wpad k
+  | noise _ hn => exact Pad.recvHandle_noise_dataAlign wpad d hn
+  | corrupted w e fid pl hw hexact hlen hl h1 h2 hclass hsof =>
+    exact Pad.recvHandle_corrupted_dataAlign wpad w e fid pl hw hexact hlen hl h1 h2 hclass hsof
+
+/-- … i.e. it is a well-formed junk item of a history, for every channel count and every write padding -/
+theorem JunkClass.wf {d : Bytes} (h : JunkClass d) : ∀ n wpad, HOp.WF n wpad (.junk d) :=
+  fun _ wpad => h.ignored wpad
+
+/-- well-formedness of a history item by CLASS, without reference to the write padding: requests are well formed for a
+    device with `n` channels, junk is of one of the three classes -/
+def HOp.WFc (n : Nat) : HOp → Prop
+  | .req r => r.WF n
+  | .junk d => JunkClass d
+  | _ => True
+
+theorem HOp.WFc.wf {n : Nat} {x : HOp} (h : x.WFc n) (wpad : Nat) : x.WF n wpad := by
+  cases x with
+  | req r => exact h
+  | junk d => exact JunkClass.wf h n wpad
+  | recv => trivial
+  | stream => trivial
+  | read => trivial
+
+/-- **history_conforms for the three junk classes, every write padding**: the statement of `history_conforms` with the
+    junk of the history given by its class (padding / noise / damaged request, as handed to `write`) — no hypothesis
+    mentions the write padding, the conclusion holds for whatever `i.wpad` is -/
+theorem history_conforms_classes (cs : List Chan) (i : Inst) (pend : List (Option Req)) (h : List HOp) (hinv : Inv cs i pend)
+    (hwf : ∀ x ∈ h, x.WFc cs.length) :
+    run cs i (h.map HOp.op) = ((refRun cs i pend h).1, (refRun cs i pend h).2.1, (refRun cs i pend h).2.2.2) ∧
+    Inv (refRun cs i pend h).1 (refRun cs i pend h).2.1 (refRun cs i pend h).2.2.1 ∧
+    (refRun cs i pend h).1.length = cs.length ∧ (refRun cs i pend h).2.1.wpad = i.wpad :=
+  history_conforms cs i pend h hinv (fun x hx => (hwf x hx).wf i.wpad)
+
+/-- the description fits the info frames after every such history -/
+theorem devOk_run_classes (cs : List Chan) (i : Inst) (h : List HOp) (hd : DevOk cs i) (ha : i.recvThr = .alive)
+    (hq : i.qwrite = []) (hwf : ∀ x ∈ h, x.WFc cs.length) :
+    DevOk (run cs i (h.map HOp.op)).1 (run cs i (h.map HOp.op)).2.1 :=
+  devOk_run cs i h hd ha hq (fun x hx => (hwf x hx).wf i.wpad)
+
+/-- **alive_run for the three junk classes**: the receive thread survives every history of well-formed requests,
+    padding-only writes, noise without a start byte and CRC-damaged requests written through ANY write padding,
+    interleaved with receive steps, stream steps and reads -/
+theorem alive_run_classes (cs : List Chan) (i : Inst) (h : List HOp) (hd : DevOk cs i) (ha : i.recvThr = .alive)
+    (hq : i.qwrite = []) (hwf : ∀ x ∈ h, x.WFc cs.length) :
+    (run cs i (h.map HOp.op)).2.1.recvThr = .alive :=
+  alive_run cs i h hd ha hq (fun x hx => (hwf x hx).wf i.wpad)
+
+/-- `request_after_history` for the three junk classes, every write padding -/
+theorem request_after_history_classes (cs : List Chan) (i : Inst) (h : List HOp) (r : Req) (hd : DevOk cs i)
+    (ha : i.recvThr = .alive) (hq : i.qwrite = []) (hwf : ∀ x ∈ h, x.WFc cs.length) (hr : r.WF cs.length)
+    (hdrain : (refRun cs i [] h).2.2.1 = []) :
+    let s := run cs i (h.map HOp.op)
+    let t := run s.1 s.2.1 [.write (wire r.fid r.payload), .recvStep]
+    t.1 = refChans s.1 r ∧ t.2.1.flag = refFlag s.2.1.flag r ∧
+    t.2.1.qread = s.2.1.qread ++ refAnswer s.1 s.2.1.flags s.2.1.rxp r ∧
+    t.2.1.recvThr = .alive ∧ t.2.1.qwrite = [] ∧ t.2.2 = [.none, .none] :=
+  request_after_history cs i h r hd ha hq (fun x hx => (hwf x hx).wf i.wpad) hr hdrain
+
+/-! #### non-vacuity -/
+
+/-- the start request `55 07 00 05 01 88 9c` with one flipped payload bit is of the class `corrupted`: all hypotheses of
+    `ignores_corrupted_padded` / `ignores_corrupted_written` hold together (the frame of the examples of Props/C02) -/
+example : JunkClass (xorBytes [0x55, 0x07, 0x00, 0x05, 0x01, 0x88, 0x9c] [0, 0, 0, 0, 0x01, 0, 0]) :=
+  .corrupted _ _ 5 [0x01] (by decide +kernel) (by decide) (by decide) (by decide) (by decide) (by decide)
+    (Or.inl (by decide +kernel)) (by decide +kernel)
+
+/-- what an interface with write padding 16 queues for it: the damaged frame and 9 zeros — not the damaged frame itself,
+    so `ignores_corrupted` does not apply to it; `ignores_corrupted_padded` (z = 9 zeros) does -/
+example : Pad.dataAlign 16 (xorBytes [0x55, 0x07, 0x00, 0x05, 0x01, 0x88, 0x9c] [0, 0, 0, 0, 0x01, 0, 0]) =
+    xorBytes [0x55, 0x07, 0x00, 0x05, 0x01, 0x88, 0x9c] [0, 0, 0, 0, 0x01, 0, 0] ++ List.replicate 9 0 := by decide +kernel
+
+/-- the hypotheses of `ignores_corrupted_padded` on the default device: receive thread alive, the padded damaged frame
+    at the head of the queue -/
+example :
+    let i : Inst := { newInst (List.range 11) 3 16 100 16 with
+      recvThr := .alive
+      qwrite := [xorBytes [0x55, 0x07, 0x00, 0x05, 0x01, 0x88, 0x9c] [0, 0, 0, 0, 0x01, 0, 0] ++ List.replicate 9 0] }
+    i.recvThr = .alive ∧
+    i.qwrite = (xorBytes [0x55, 0x07, 0x00, 0x05, 0x01, 0x88, 0x9c] [0, 0, 0, 0, 0x01, 0, 0] ++ List.replicate 9 0) :: [] ∧
+    recvStep defaultObjs i = (defaultObjs, { i with qwrite := [] }, none) := by decide +kernel
+
+/-- a history on the default device with write padding 16 — enable all, the damaged start request, 20 bytes of padding,
+    noise, a channel-info request, receive steps, a stream step and reads in between — satisfies the hypothesis of
+    `history_conforms_classes` … -/
+example : ∀ x ∈ [HOp.req (.enAll true), .junk (xorBytes [0x55, 0x07, 0x00, 0x05, 0x01, 0x88, 0x9c] [0, 0, 0, 0, 0x01, 0, 0]),
+    .recv, .recv, .junk (List.replicate 20 0), .junk [1, 2, 3], .recv, .req (.chinfo 1), .recv, .recv, .stream, .read, .read],
+    x.WFc 11 := by
+  intro x hx
+  simp only [List.mem_cons, List.not_mem_nil, or_false] at hx
+  rcases hx with rfl | rfl | rfl | rfl | rfl | rfl | rfl | rfl | rfl | rfl | rfl | rfl | rfl
+  case inr.inl =>
+    exact .corrupted _ _ 5 [0x01] (by decide +kernel) (by decide) (by decide) (by decide) (by decide) (by decide)
+      (Or.inl (by decide +kernel)) (by decide +kernel)
+  case inr.inr.inr.inr.inl => exact .padding 20
+  case inr.inr.inr.inr.inr.inl => exact .noise _ (by decide)
+  case inr.inr.inr.inr.inr.inr.inr.inl => show (1 : Nat) < 11; omega
+  all_goals trivial
+
+/-- … and on the machine: the damaged start request written through write padding 16 is taken and dropped — the stream
+    is NOT started, nothing but the ACK of the enable request and the channel info is ever queued, the receive thread is
+    alive at the end -/
+example :
+    let i : Inst := { newInst (List.range 11) 3 16 100 16 with recvThr := .alive, streamThr := .alive }
+    let h := [HOp.req (.enAll true), .junk (xorBytes [0x55, 0x07, 0x00, 0x05, 0x01, 0x88, 0x9c] [0, 0, 0, 0, 0x01, 0, 0]),
+      .recv, .recv, .junk (List.replicate 20 0), .junk [1, 2, 3], .recv, .req (.chinfo 1), .recv, .recv, .recv, .stream, .read,
+      .read, .read]
+    (run defaultObjs i (h.map HOp.op)).2.2 =
+      [.none, .none, .none, .none, .none, .none, .none, .none, .none, .none, .none, .none, .bytes (wire 4 [0, 0, 0, 0]),
+       .bytes (wire 3 [1, 10, 1, 0, 0, 0x63, 0x68, 0x61, 0x6e, 0x31]), .bytes []] ∧
+    (run defaultObjs i (h.map HOp.op)).2.1.flag = false ∧ (run defaultObjs i (h.map HOp.op)).2.1.recvThr = .alive ∧
+    (run defaultObjs i (h.map HOp.op)).2.1.qwrite = [] := by decide +kernel
 
 end Nxs.C14
